@@ -546,6 +546,25 @@ class Discharger:
                     kk, cc = int(k), int(ct)
                     if (o == 'Gt' and kk + 1 >= cc) or (o == 'Ge' and kk >= cc) or (o == 'Ne' and kk == 0 and cc == 1):
                         return ('guard-dom', 'dominated by %s' % cond)
+        # x != y together with x >= y (in any spelling: !(y > x), !(x < y), y <= x, ..) gives x > y >= 0, hence x >= 1
+        if re.fullmatch(r'\d+', ct) and int(ct) == 1:
+            ne, ge = set(), set()
+            for cond in self.deep_conds(ob):
+                m = re.fullmatch(r'\((.*) (Gt|Ge|Lt|Le|Ne|Eq) (.*)\)(!?=)\[0\]', cond)
+                if not m:
+                    continue
+                l, op, r, neg = m.groups()
+                if neg != '!=':
+                    op = {'Gt': 'Le', 'Ge': 'Lt', 'Lt': 'Ge', 'Le': 'Gt', 'Ne': 'Eq', 'Eq': 'Ne'}[op]
+                for x, y, o in ((l, r, op), (r, l, {'Gt': 'Lt', 'Lt': 'Gt', 'Ge': 'Le', 'Le': 'Ge', 'Ne': 'Ne', 'Eq': 'Eq'}[op])):
+                    if x in (at, amt):
+                        if o == 'Ne':
+                            ne.add(y)
+                        elif o in ('Ge', 'Gt'):
+                            ge.add(y)
+            both = ne & ge
+            if both:
+                return ('guard-dom', 'the minuend differs from and is not below %s (both checked before): it exceeds an unsigned value, so it is >= 1' % sorted(both)[0][:40])
         return None
 
     # --- unwraps
